@@ -333,11 +333,12 @@ def c20_ipv6_full : Prop := ∀ s, accepts Gen.val_ipv6 s = Fmt.ipv6.run s
 def c20_ipv6_pattern_full : Prop := ∀ s, accepts Gen.pat_ipv6 s = Fmt.ipv6.run s
 def c20_cidrv6_pattern_full : Prop := ∀ s, accepts Gen.pat_cidrv6 s = Fmt.cidrv6.run s
 
-/-- on every string without '.' and '%' the validator's regex accepts exactly the RFC 4291 addresses -/
-theorem c20_ipv6_partial : ∀ s, avoids [46, 37] s = true → accepts Gen.val_ipv6 s = Fmt.ipv6.run s := fun s hs =>
+/-- on every string without '.' and '%' the exported pattern accepts exactly the RFC 4291 addresses -/
+theorem c20_ipv6_pattern_partial : ∀ s, avoids [46, 37] s = true → accepts Gen.pat_ipv6 s = Fmt.ipv6.run s := fun s hs =>
   (bisim_sound_R_full _ _ _ _ Gen.cert_ipv6_partial_ok s hs).trans (ipv6_hex_quot s (avoids_dot hs)).symm
-theorem c20_ipv6_pattern_partial : ∀ s, avoids [46, 37] s = true → accepts Gen.pat_ipv6 s = Fmt.ipv6.run s :=
-  c20_ipv6_partial
+/-- the validator matches the same regular expression (`validate.IPv6` = `regex.IPv6`) -/
+theorem c20_ipv6_partial : ∀ s, avoids [46, 37] s = true → accepts Gen.val_ipv6 s = Fmt.ipv6.run s :=
+  c20_ipv6_pattern_partial
 theorem c20_cidrv6_pattern_partial : ∀ s, avoids [46, 37] s = true → accepts Gen.pat_cidrv6 s = Fmt.cidrv6.run s := fun s hs =>
   (bisim_sound_R_full _ _ _ _ Gen.cert_cidrv6_partial_ok s hs).trans (cidrv6_hex_quot s (avoids_dot hs)).symm
 
